@@ -47,6 +47,7 @@ type Profile struct {
 	PRewrite      int  // % of slices of strings whose item schema rewrites items in place (Catch over a failing test, Default over a zero item) under a slice test about the contents
 	PFalsy        int  // % of non-string primitive leaves given a falsy but present input (0, 0.0, false, the zero time)
 	PBlankCo      int  // % of constant string coercers that return a blank (absent-looking) string
+	PCustomTpl    int  // % of cases run under a user-edited language map whose templates name several parameters (tests carry them through Params)
 	PLongOneOf    int  // % of built-in tests on strings and numbers that are a OneOf over a long list with no custom message
 	NilBias       bool // whole inputs are re-drawn (up to 10 times) until the implementation reports no issues
 	Repeats       int  // how many times a case is re-run (with reshuffled schema insertion orders and varying pool states)
@@ -225,6 +226,9 @@ func (g *Gen) pt(n *Node) PTSpec {
 	p := PTSpec{ID: g.id()}
 	if r.P(g.P.PPTErr) {
 		p.Op = Pick(r, []string{"err", "mut_err", "issue", "wrap_issue"})
+		if p.Op == "issue" && r.Fork(0xba5e).P(40) {
+			p.Op = "bare_issue"
+		}
 		p.S = Pick(r, []string{"boom", "bad"})
 		p.N = 1
 	} else {
@@ -647,6 +651,7 @@ func ProfileByName(name string) Profile {
 		p.PInvalid = 45
 		p.Repeats = 7
 		p.PIssuePath = 12 // issues filed under another node's key: the key's list is built from several visits
+		p.PCustomTpl = 8
 	case "C12":
 		p.PUserTest = 60
 		p.PPT = 50
